@@ -27,12 +27,15 @@ type c16Result struct {
 
 // serve feeds the byte chunks to the request handler over a pipe, then closes
 // the client side (a client that stops sending).
+// what the terminal hands to the server for a GET: any text, percent signs included
+const c16State = `{"state":"SECRET-STATE","query":"100%s 50% off %d %v%%","current":"a%20b"}`
+
 func c16Serve(key string, chunks [][]byte) c16Result {
 	var res c16Result
 	ch := make(chan []*action, 4)
 	srv := &httpServer{apiKey: []byte(key), actionChannel: ch, getHandler: func(p getParams) string {
 		res.gets = append(res.gets, p)
-		return `{"state":"SECRET-STATE"}`
+		return c16State
 	}}
 	client, server := net.Pipe()
 	done := make(chan string, 1)
@@ -328,7 +331,7 @@ func propC16RequestGrammar(t *rapid.T) {
 	if complete && authorized && !r.bareLF && !r.bodyFirst {
 		switch r.method {
 		case "GET", "GETQ":
-			if len(res.gets) != 1 || status != 200 || !strings.Contains(body, "SECRET-STATE") {
+			if len(res.gets) != 1 || status != 200 || strings.TrimSuffix(body, "\n") != c16State {
 				t.Fatalf("%s: a valid GET got %d %q (handler calls: %d)", desc, status, body, len(res.gets))
 			}
 		case "POST":
